@@ -6,7 +6,7 @@
 (* walk over MCSpiReg!Next almost never clocks a whole word).                                 *)
 EXTENDS MCSpiReg
 
-VARIABLE plan      \* [n |-> bit events still to come in this transaction, end |-> "desel" | "mid"]
+VARIABLE plan      \* [n |-> bit events still to come in this transaction, end |-> "desel" | "mid" | "cut"]
 
 svars == <<vars, plan>>
 
@@ -14,13 +14,13 @@ SimInit == Init /\ plan = [n |-> 0, end |-> "desel"]
 
 SimNext ==
     \/ /\ phase = "idle"
-       /\ \E n \in 0..(A + 1 + R + R + 1), en \in {"desel", "mid"} : plan' = [n |-> n, end |-> en]
+       /\ \E n \in 0..(A + 1 + R + R + 1), en \in {"desel", "mid", "cut"} : plan' = [n |-> n, end |-> en]
        /\ EvSel
     \/ /\ phase # "idle" /\ plan.n > 0
        /\ EvBit
        /\ plan' = [plan EXCEPT !.n = @ - 1]
     \/ /\ phase # "idle" /\ plan.n = 0
-       /\ IF plan.end = "mid" THEN EvMid ELSE EvDesel
+       /\ IF plan.end = "mid" THEN EvMid ELSE IF plan.end = "cut" THEN EvCut ELSE EvDesel
        /\ UNCHANGED plan
     \/ /\ phase = "idle"
        /\ EvNoise \/ EvPoke \/ EvIdle
